@@ -38,22 +38,23 @@ def make_slow(kind, params, k, D, rng):
     if kind == 'adaptive_bounded_normal':
         return P.AdaptiveBoundedNormal(params, bnd, adaptation_duration=D, start_step=rng.choice([1, 2]), jump_interval=k)
     if kind == 'adaptive_angular':
-        return P.AdaptiveAngular(params, adaptation_duration=D, jump_interval=k)
+        return P.AdaptiveAngular(params, adaptation_duration=D, jump_interval=k, start_step=rng.choice([1, 2, 3]))
     if kind == 'adaptive_bounded_discrete':
-        return P.AdaptiveBoundedDiscrete(params, {p: (-8, 8) for p in params}, adaptation_duration=D, jump_interval=k)
+        return P.AdaptiveBoundedDiscrete(params, {p: (-8, 8) for p in params}, adaptation_duration=D, jump_interval=k,
+                                         start_step=rng.choice([1, 2, 3]))
     if kind == 'adaptive_discrete':
-        return P.AdaptiveNormalDiscrete(params, {p: 16 for p in params}, adaptation_duration=D, jump_interval=k)
+        return P.AdaptiveNormalDiscrete(params, {p: 16 for p in params}, adaptation_duration=D, jump_interval=k, start_step=rng.choice([1, 2]))
     if kind == 'ss_adaptive_normal':
         return P.SSAdaptiveNormal(params, jump_interval=k, jump_interval_duration=D)
     if kind == 'at_adaptive_normal':
         return P.ATAdaptiveNormal(params, adaptation_duration=D, start_step=rng.choice([1, 2]), jump_interval=k,
                                   diagonal=rng.random() < 0.5)
     if kind == 'at_adaptive_bounded_normal':
-        return P.ATAdaptiveBoundedNormal(params, bnd, adaptation_duration=D, jump_interval=k)
+        return P.ATAdaptiveBoundedNormal(params, bnd, adaptation_duration=D, jump_interval=k, start_step=rng.choice([1, 2, 3]))
     if kind == 'eigenvector':
         return P.Eigenvector(params, jump_interval=k, jump_interval_duration=D)
     if kind == 'adaptive_eigenvector':
-        return P.AdaptiveEigenvector(params, adaptation_duration=D, jump_interval=k)
+        return P.AdaptiveEigenvector(params, adaptation_duration=D, jump_interval=k, start_step=rng.choice([1, 2, 4]))
     if kind == 'solid_angle':
         return P.IsotropicSolidAngle(params[0], params[1], jump_interval=k, jump_interval_duration=D)
     raise ValueError(kind)
@@ -98,6 +99,8 @@ class Config:
     def build(self, seed=None):
         rng = random.Random(self.rs)
         props = [make_slow(kind, params, k, D, rng) for kind, params, k, D in self.specs]
+        for pr, (_, _, _, D) in zip(props, self.specs):
+            pr._verif_D = D            # the duration it was configured with (deep-copied along with the proposal)
         model = GaussModel(self.params, sigma=3.0, lo=-BOX, hi=BOX, log=False)
         seed = self.seed if seed is None else seed
         if self.pt:
@@ -155,7 +158,7 @@ class Watch:
 
 def clock_of(prop):
     k = prop.jump_interval
-    D = prop.jump_interval_duration
+    D = getattr(prop, '_verif_D', prop.jump_interval_duration)        # as configured, not as the proposal holds it
     s = getattr(prop, 'start_step', None)
     return k, (D if D is not None else 0), s, prop._nsteps
 
